@@ -14,8 +14,9 @@ out.append("Every change below (except the two `own-*` probes, written by hand f
            "worktree (nothing from /verif), asked for a change that compiles, passes the full test suite and needs something\n"
            "specific to manifest. Each was confirmed in its scratch worktree (`tools/confirm_mutant.sh`: suite passes with the\n"
            "change, the agent's demonstration fails with it and passes without it) and is kept as `/verif/seeded/<id>/`\n"
-           "(`patch.diff`, `demo/`, `agent_README.md`, `confirm.log`, `meta.json`). Three rounds; round 2 and 3 were told the\n"
-           "mechanisms of the earlier rounds and asked for different ones. Two round-1 changes (C17-m2, C01-m3) stopped breaking\n"
+           "(`patch.diff`, `demo/`, `agent_README.md`, `confirm.log`, `meta.json`). Four rounds; rounds 2 to 4 were told the\n"
+           "mechanisms of the earlier rounds and asked for different ones (round 4 for changes that need a rarely used language\n"
+           "feature, a size, a numeric coincidence or an option pair). Two round-1 changes (C17-m2, C01-m3) stopped breaking\n"
            "their property after repairs of genuine defects (parameter collision became an error; literals are reduced) and were\n"
            "dropped. Columns: result of `./check <ID> quick` with the change applied to /repo (`tools/try_mutant.sh`);\n"
            "`CAUGHT` = exit 1 with a VIOLATION line, `-` = exit 0, `.` = not run for this change.\n")
